@@ -249,7 +249,10 @@ function lpGeneral(lp) {
 }
 function stripPre(p, pre) {
   if (!Array.isArray(p)) return p
-  return p.map((x, i) => (i === 1 && (p[0] === 1 || p[0] === 2) && typeof x === 'string' && x.startsWith(pre) ? x.slice(pre.length) : x))
+  // (the files of a case live under a directory of their own: a script or template path that does not start with it was
+  // not resolved against the referring file and names something else)
+  return p.map((x, i) => (i === 1 && (p[0] === 1 || p[0] === 2) && typeof x === 'string'
+    ? (x.startsWith(pre) ? x.slice(pre.length) : '(outside ' + pre + ') ' + x) : x))
 }
 function eqPath(a, b) {
   if (!Array.isArray(a) || !Array.isArray(b) || a.length !== b.length) return false
